@@ -812,6 +812,13 @@ class Inliner:
                         # own: in front of an `if` it reads as the statements it was extracted from
                         straight = isinstance(st, ast.If) and len(h.body) >= 2 and isinstance(h.body[-1], ast.Return) and h.body[-1].value is not None and \
                             all(isinstance(x, ast.Assign) and len(x.targets) == 1 and isinstance(x.targets[0], ast.Name) for x in h.body[:-1])
+                        # ... or a loop that collects values in front of a single `return <expr>` (no other exit, nothing raised): the
+                        # collecting statements read as written in front of the `if`
+                        collects = isinstance(st, ast.If) and st.test is call and len(h.body) >= 2 and isinstance(h.body[-1], ast.Return) and \
+                            h.body[-1].value is not None and not raises and any(isinstance(x, ast.For) for x in h.body[:-1]) and \
+                            all(isinstance(x, (ast.Assign, ast.AugAssign, ast.For, ast.Expr)) for x in h.body[:-1]) and \
+                            not any(isinstance(y, (ast.Return, ast.Yield, ast.YieldFrom, ast.Break, ast.While, ast.Try, ast.With)) for x in h.body[:-1] for y in ast.walk(x))
+                        straight = straight or collects
                         if not (raises and isinstance(st, ast.If) and st.test is call) and not straight:
                             raise _NotInlinable("multi-statement predicate called in a condition")
                     prelude, e = self._expand_stmt_helper(h, call, recv, in_out_params(st, call, h))
@@ -1895,6 +1902,80 @@ def _symbol_helpers_to_predicates(tree, modname):
     return set()
 
 
+def _append_loops_to_comprehensions(tree):
+    """`xs = []` directly followed by `for t in it: [tmp = e]* xs.append(v)` is the list comprehension `[v for t in it]`
+    (temporaries substituted) when the temporaries and the loop target are not read outside the loop.  Rules that recognise
+    "the list of <attribute> over <iteration>" read one form."""
+    n = [0]
+
+    class _Subst(ast.NodeTransformer):
+        def __init__(self, m):
+            self.m = m
+
+        def visit_Name(self, node):
+            if isinstance(node.ctx, ast.Load) and node.id in self.m:
+                return copy.deepcopy(self.m[node.id])
+            return node
+
+    def loads_outside(fn, names, skip):
+        skip_ids = {id(x) for x in ast.walk(skip)}
+        for x in ast.walk(fn):
+            if isinstance(x, ast.Name) and x.id in names and id(x) not in skip_ids:
+                return True
+        return False
+
+    def rewrite(fn, body):
+        out = []
+        i = 0
+        while i < len(body):
+            st = body[i]
+            nxt = body[i + 1] if i + 1 < len(body) else None
+            done = False
+            if isinstance(st, ast.Assign) and len(st.targets) == 1 and isinstance(st.targets[0], ast.Name) and isinstance(st.value, ast.List) and not st.value.elts \
+                    and isinstance(nxt, ast.For) and not nxt.orelse and nxt.body and isinstance(nxt.target, (ast.Name, ast.Tuple)):
+                acc = st.targets[0].id
+                last = nxt.body[-1]
+                temps = nxt.body[:-1]
+                if isinstance(last, ast.Expr) and isinstance(last.value, ast.Call) and isinstance(last.value.func, ast.Attribute) and last.value.func.attr == "append" and \
+                        isinstance(last.value.func.value, ast.Name) and last.value.func.value.id == acc and len(last.value.args) == 1 and not last.value.keywords and \
+                        all(isinstance(t, ast.Assign) and len(t.targets) == 1 and isinstance(t.targets[0], ast.Name) for t in temps):
+                    tnames = [t.targets[0].id for t in temps]
+                    target_names = {x.id for x in ast.walk(nxt.target) if isinstance(x, ast.Name)}
+                    uses_acc = any(isinstance(x, ast.Name) and x.id == acc for t in temps for x in ast.walk(t)) or \
+                        any(isinstance(x, ast.Name) and x.id == acc for x in ast.walk(last.value.args[0])) or \
+                        any(isinstance(x, ast.Name) and x.id == acc for x in ast.walk(nxt.iter))
+                    if len(set(tnames)) == len(tnames) and not uses_acc and not loads_outside(fn, set(tnames) | target_names, nxt) and \
+                            not any(isinstance(x, (ast.Yield, ast.YieldFrom, ast.Await, ast.NamedExpr)) for x in ast.walk(nxt)):
+                        m = {}
+                        for t in temps:
+                            m[t.targets[0].id] = _Subst(dict(m)).visit(copy.deepcopy(t.value))
+                        elt = _Subst(m).visit(copy.deepcopy(last.value.args[0]))
+                        comp = ast.ListComp(elt=elt, generators=[ast.comprehension(target=copy.deepcopy(nxt.target), iter=nxt.iter, ifs=[], is_async=0)])
+                        new = ast.Assign(targets=[ast.Name(id=acc, ctx=ast.Store())], value=comp)
+                        ast.copy_location(new, st)
+                        ast.fix_missing_locations(new)
+                        out.append(new)
+                        i += 2
+                        n[0] += 1
+                        done = True
+            if not done:
+                for fld in ("body", "orelse", "finalbody"):
+                    sub = getattr(st, fld, None)
+                    if isinstance(sub, list) and sub and isinstance(sub[0], ast.stmt) and not isinstance(st, (ast.FunctionDef, ast.AsyncFunctionDef, ast.ClassDef)):
+                        setattr(st, fld, rewrite(fn, sub))
+                if isinstance(st, ast.Try):
+                    for h in st.handlers:
+                        h.body = rewrite(fn, h.body)
+                out.append(st)
+                i += 1
+        return out
+
+    for node in ast.walk(tree):
+        if isinstance(node, (ast.FunctionDef, ast.AsyncFunctionDef)):
+            node.body = rewrite(node, node.body)
+    return n[0]
+
+
 def inline_module(tree, modname):
     sym_helpers = _symbol_helpers_to_predicates(tree, modname)
     n_rec = _namedtuples_to_tuples(tree)
@@ -1909,6 +1990,9 @@ def inline_module(tree, modname):
     if sym_helpers and inl.known is not None:
         inl.known = set(inl.known) | sym_helpers
     tree = inl.run()
+    n_app = _append_loops_to_comprehensions(tree) if inl.known is not None else 0
+    if n_app:
+        inl.report.append("%d list-building loops (xs = []; for ...: xs.append(v)) read as list comprehensions" % n_app)
     if sym_helpers:
         inl.report.append("symbol-returning helper(s) %s read as the edge-needs-symbol predicate" % ", ".join(sorted(sym_helpers)))
     n_tab = _merge_local_tables(tree) if inl.report else 0
